@@ -142,10 +142,11 @@ func c16VRes(user bbs.UUserID, exp int, cli string, eml string, err error) []str
 
 // c16State: one driver process. withEnv = scratch BBSHOME + shared memory (needed by the e-mail routes).
 type c16State struct {
-	env    *bbsEnv
-	router *gin.Engine
-	cfg    bool // the sacrificial "C16cfg" process: may run the real initgin.InitAllConfig
-	saved  c16Saved
+	env       *bbsEnv
+	router    *gin.Engine
+	cfg       bool // the sacrificial "C16cfg" process: may run the real initgin.InitAllConfig
+	saved     c16Saved
+	histReady bool // routes of the history op (c16hist.go) registered
 }
 
 func (s *c16State) do(method, path, auth string, body interface{}) (int, map[string]interface{}) {
@@ -283,6 +284,8 @@ func (s *c16State) run(args [][]string) []string {
 		return append(s.configure(ai(args[1][0]), string(ab(args[2]))), nows)
 	case 9: // a token ISSUED BY THE SERVER'S OWN functions presented to a verifier: [kind user cli eml ctx] | [verifier vctx]
 		return append(s.issued(args[1], args[2]), nows)
+	case 11: // a whole history in this one process: repeated presentations, the clock passing an expiry, thousands of tokens (c16hist.go)
+		return s.history(args)
 	case 10: // the whole start-up configuration path, initgin.InitAllConfig(file), as main does — sacrificial process only
 		if !s.cfg {
 			return []string{"9"}
